@@ -15,8 +15,8 @@ Definition ZZ (P : prims) := forall x, zd P (zc P x) = ZOk x.
 (* Lock a wallet (every account encrypted under the wallet's password, any init-vector supply) and unlock it with
    the same password: unlock answers True and every account has exactly the seed, private key, public key (hence
    addresses) and flag it had; in between every account is encrypted and holds no private key object.
-   wf_wallet: seeds are str (valid UTF-8) made of word-list words, private keys are parseable extended keys --
-   see C13_unlock_refuses_correct_password_when_seed_not_in_word_list for what happens otherwise. *)
+   wf_wallet: seeds are str (valid UTF-8) that regenerate the account's public key (true of every account built by
+   Account.from_dict from a seed, whatever the words), private keys are parseable extended keys. *)
 Theorem C13_unlock_restores : forall P, DE P -> B64 P -> B64nil P ->
   forall w pw rnd, wf_wallet P w -> w_pw w = Some pw -> Forall len16 rnd ->
   exists w1 w2,
@@ -28,12 +28,44 @@ Theorem C13_unlock_restores : forall P, DE P -> B64 P -> B64nil P ->
 Proof. exact unlock_restores. Qed.
 Print Assumptions C13_unlock_restores.
 
-(* PARTIAL (what is missing: that a wrong password IS refused -- that is cryptographic chance: padding, UTF-8,
-   word list, Base58 checksum -- nothing is assumed about decryption under another key).  What is proved, for every
-   P: if the FIRST encrypted account refuses the password (False or an escaping Base58Error) then unlock does not
-   answer True, the wallet is still locked, and password, name, preferences and every account (seed, key strings,
-   key object, flags; all but the remembered init vectors) are unchanged. *)
-Theorem C13_failed_unlock_unchanged_partial : forall P w pw pre a post,
+(* The same through the disk: the dict of an encrypted save (what storage.write renders), read back as
+   Wallet.from_storage does (keys sorted, every account flagged encrypted, no password in memory), then unlocked
+   with the password of the save: True, and the same seeds, private keys, public keys as before the save. *)
+Theorem C13_disk_roundtrip : forall P, DE P -> B64 P -> B64nil P ->
+  forall w (pw : bytes) rnd, wf_wallet P w -> pw <> [] -> Forall len16 rnd ->
+  exists w1 w2,
+    wallet_of_dict P (fst (wallet_to_dict P (Some pw) rnd w)) = Some w1
+    /\ Forall (fun b => a_encrypted b = true /\ a_priv b = None) (w_accounts w1)
+    /\ w_pw w1 = None /\ w_name w1 = w_name w
+    /\ unlock P pw w1 = (UTrue, w2)
+    /\ map secrets (w_accounts w2) = map secrets (w_accounts w)
+    /\ w_pw w2 = Some pw.
+Proof. exact disk_roundtrip. Qed.
+Print Assumptions C13_disk_roundtrip.
+
+(* Wallet.unlock answers False -- whichever account refused the password -- then the wallet is still locked and
+   password, name, preferences and EVERY account (all fields but the init vectors remembered by the refusing
+   account) are what they were: accounts that did open have been encrypted again, bit for bit.
+   Premise [sealed_if_opened]: an account that this password opens was sealed under it by Account.encrypt (nothing is
+   assumed about what a key decrypts that did not encrypt, so a foreign ciphertext that happens to open could not be
+   restored bit for bit).
+   PARTIAL in one respect only: that a wrong password IS refused is cryptographic chance (padding, UTF-8, public key
+   of the seed, Base58 checksum) and is not claimed; the theorem starts from the refusal. *)
+Theorem C13_failed_unlock_unchanged_partial : forall P, DE P -> B64 P -> B64nil P ->
+  forall w pw,
+  Forall (sealed_if_opened P pw) (w_accounts w) ->
+  fst (unlock P pw w) = UFalse ->
+  is_locked (snd (unlock P pw w)) = true
+  /\ w_pw (snd (unlock P pw w)) = w_pw w
+  /\ w_name (snd (unlock P pw w)) = w_name w /\ w_prefs (snd (unlock P pw w)) = w_prefs w
+  /\ map strip_iv (w_accounts (snd (unlock P pw w))) = map strip_iv (w_accounts w).
+Proof. exact failed_unlock_unchanged. Qed.
+Print Assumptions C13_failed_unlock_unchanged_partial.
+
+(* Refusal of any kind (False, or a Base58Error escaping from Account.decrypt) by the FIRST encrypted account: the
+   same conclusion for every P with no premise at all about the accounts.  (An exception raised by a LATER account
+   skips the re-locking; it needs a corrupted private-key ciphertext under the right password.) *)
+Theorem C13_failed_unlock_first_account_unchanged : forall P w pw pre a post,
   w_accounts w = pre ++ a :: post ->
   Forall (fun x => a_encrypted x = false) pre -> a_encrypted a = true ->
   fst (account_decrypt P pw a) <> DTrue ->
@@ -42,18 +74,28 @@ Theorem C13_failed_unlock_unchanged_partial : forall P w pw pre a post,
   /\ w_pw (snd (unlock P pw w)) = w_pw w
   /\ w_name (snd (unlock P pw w)) = w_name w /\ w_prefs (snd (unlock P pw w)) = w_prefs w
   /\ map strip_iv (w_accounts (snd (unlock P pw w))) = map strip_iv (w_accounts w).
-Proof. exact failed_unlock_unchanged. Qed.
-Print Assumptions C13_failed_unlock_unchanged_partial.
+Proof. exact failed_unlock_unchanged_first. Qed.
+Print Assumptions C13_failed_unlock_first_account_unchanged.
 
-(* ... and when a LATER account refuses, the accounts before it have been decrypted and stay so: the wallet is
-   locked but not unchanged (finding; see C13_ex_partial_unlock). *)
-Theorem C13_failed_unlock_keeps_earlier_accounts_decrypted : forall P pw pre a post pre',
-  unlock_accounts P pw pre = (UTrue, pre') -> a_encrypted a = true ->
+(* REFUTED claims about the code before the two repairs (cfbbf5f, a1c8e7f), kept machine-checked:
+   the old Wallet.unlock left the accounts before the refusing one decrypted ... *)
+Theorem C13_old_unlock_left_earlier_accounts_decrypted_refuted : forall P pw pre a post pre',
+  unlock_accounts_old P pw pre = (UTrue, pre') -> a_encrypted a = true ->
   fst (account_decrypt P pw a) <> DTrue ->
-  fst (unlock_accounts P pw (pre ++ a :: post)) <> UTrue /\
-  snd (unlock_accounts P pw (pre ++ a :: post)) = pre' ++ snd (account_decrypt P pw a) :: post.
-Proof. exact failed_unlock_prefix. Qed.
-Print Assumptions C13_failed_unlock_keeps_earlier_accounts_decrypted.
+  fst (unlock_accounts_old P pw (pre ++ a :: post)) <> UTrue /\
+  snd (unlock_accounts_old P pw (pre ++ a :: post)) = pre' ++ snd (account_decrypt P pw a) :: post.
+Proof. exact old_unlock_left_earlier_accounts_decrypted. Qed.
+Print Assumptions C13_old_unlock_left_earlier_accounts_decrypted_refuted.
+
+(* ... and the old Account.decrypt (English word-list check on the decrypted seed) refused the very password an
+   account was encrypted with whenever its seed did not pass that check *)
+Theorem C13_old_seed_check_refused_correct_password_refuted : forall P, DE P -> B64 P -> B64nil P ->
+  forall a pw rnd,
+  a_encrypted a = false -> nonempty (a_seed a) = true -> utf8_ok P (a_seed a) = true ->
+  seed_ok P (a_seed a) = false -> iv_ok (a_iv_seed a) -> Forall len16 rnd ->
+  fst (account_decrypt_old P pw (fst (account_encrypt P pw rnd a))) = DFalse.
+Proof. exact old_seed_check_refused_correct_password. Qed.
+Print Assumptions C13_old_seed_check_refused_correct_password_refuted.
 
 (* With the encrypt-on-disk preference on and a non-blank password set, the dict Wallet.save hands to
    storage.write is [public_image] of name, preferences, the init-vector supply and, per account, its public part
@@ -84,6 +126,13 @@ Theorem C13_save_atomic : forall umask path pid data t t',
   fdata (t' path) = fdata (t path) \/ fdata (t' path) = Some data.
 Proof. exact save_atomic. Qed.
 Print Assumptions C13_save_atomic.
+
+(* the same for Wallet.save as a whole (the new content is the rendering of the dict this save computed) *)
+Theorem C13_wallet_save_atomic : forall P umask path pid ts rnd w t t',
+  crashes umask (storage_write path pid (render_file P (fst (save_dict P ts rnd w))) t) t t' ->
+  fdata (t' path) = fdata (t path) \/ fdata (t' path) = Some (render_file P (fst (save_dict P ts rnd w))).
+Proof. exact wallet_save_atomic. Qed.
+Print Assumptions C13_wallet_save_atomic.
 
 Theorem C13_save_completes : forall umask path pid data t,
   run_ops umask (storage_write path pid data t) t path =
@@ -139,24 +188,35 @@ Example C13_ex_wrong_password :
   end = (UFalse, true, true).
 Proof. vm_compute. reflexivity. Qed.
 
-(* FINDING (machine-checked on the model): accounts encrypted under different passwords -- unlock with the first
-   one is refused by the second account, yet the first account has been decrypted and stays decrypted *)
-Example C13_ex_partial_unlock :
+(* accounts encrypted under different passwords: unlock with the first one is refused by the second account and
+   the first account is encrypted again, bit for bit (the old code left it decrypted) *)
+Example C13_ex_mixed_passwords :
   let a1 := fst (account_encrypt toy ex_pw [iv_a; iv_b] ex_seeded) in
   let a2 := fst (account_encrypt toy ex_pw2 [iv_c] ex_keyonly) in
   let w := mkWallet [] [] [a1; a2] None in
-  (fst (unlock toy ex_pw w), map a_encrypted (w_accounts w), map a_encrypted (w_accounts (snd (unlock toy ex_pw w))))
-  = (UFalse, [true; true], [false; true]).
+  (fst (unlock toy ex_pw w), map a_encrypted (w_accounts (snd (unlock toy ex_pw w))),
+   map a_seed (w_accounts (snd (unlock toy ex_pw w))), map a_pks (w_accounts (snd (unlock toy ex_pw w))),
+   map a_encrypted (snd (unlock_accounts_old toy ex_pw [a1; a2])))
+  = (UFalse, [true; true], map a_seed [a1; a2], map a_pks [a1; a2], [false; true]).
 Proof. vm_compute. reflexivity. Qed.
 
-(* FINDING: a seed that fails the word-list check can be encrypted but the correct password no longer unlocks it *)
-Example C13_unlock_refuses_correct_password_when_seed_not_in_word_list :
+(* a seed outside the toy word list: unlocks with its password now; the old check refused it *)
+Example C13_ex_seed_outside_word_list :
   let w := mkWallet [] [] [ex_badseed] (Some ex_pw) in
   match lock toy [iv_a; iv_b] w with
-  | Ok w1 => (fst (unlock toy ex_pw w1), is_locked (snd (unlock toy ex_pw w1)))
-  | Err _ => (UTrue, false)
-  end = (UFalse, true).
+  | Ok w1 => (fst (unlock toy ex_pw w1), map secrets (w_accounts (snd (unlock toy ex_pw w1))),
+              fst (account_decrypt_old toy ex_pw (hd ex_watch (w_accounts w1))))
+  | Err _ => (UFalse, [], DTrue)
+  end = (UTrue, [secrets ex_badseed], DFalse).
 Proof. vm_compute. reflexivity. Qed.
+
+(* the premises of C13_failed_unlock_unchanged_partial are inhabited: the locked example wallet, another password *)
+Example C13_ex_failed_unlock_premises :
+  match lock toy [iv_a; iv_b; iv_c] ex_wallet with
+  | Ok w1 => Forall (sealed_if_opened toy ex_pw2) (w_accounts w1) /\ fst (unlock toy ex_pw2 w1) = UFalse
+  | Err _ => False
+  end.
+Proof. exact ex_locked_sealed. Qed.
 
 (* a crash just after the rename (n = 8 complete operations) shows the new content; just before it, the old *)
 Example C13_ex_crash :
@@ -173,6 +233,13 @@ Example C13_ex_sealed :
   let w := pref_set EOD (JB true) 1 ex_wallet in
   (pref_on w, fst (save_dict toy 1 [iv_a; iv_b; iv_c] w)) =
   (true, public_image toy (w_name w) (w_prefs w) [iv_a; iv_b; iv_c] (map (seal toy ex_pw) (w_accounts w))).
+Proof. vm_compute. reflexivity. Qed.
+
+Example C13_ex_disk :
+  match wallet_of_dict toy (fst (wallet_to_dict toy (Some ex_pw) [iv_a; iv_b; iv_c] ex_wallet)) with
+  | Some w1 => (is_locked w1, fst (unlock toy ex_pw w1), map secrets (w_accounts (snd (unlock toy ex_pw w1))))
+  | None => (false, UFalse, [])
+  end = (true, UTrue, map secrets (w_accounts ex_wallet)).
 Proof. vm_compute. reflexivity. Qed.
 
 Example C13_ex_pack : match pack toy ex_pw iv_a ex_wallet with
